@@ -3788,6 +3788,15 @@ class _DiskCacheWrapper:
         # default)
         self.cache = diskcache.Cache(cache_dir, eviction_policy='none')
 
+    def __getstate__(self):
+        # A copy of this object that is created by pickle (e.g. when a dataset
+        # with a diskcache is used with a multiprocessing backend) lives in
+        # another process and is deleted, when its task is finished. It must
+        # never remove the cache dir, this is the task of the original object.
+        state = self.__dict__.copy()
+        state['clear'] = False
+        return state
+
     def __getitem__(self, item):
         return self.cache[item]
 
